@@ -57,3 +57,19 @@ Definition lip14_case (c : slotcfg) (last cur : fh) (t_last : option N) (t_cur :
   else if tie then TieBreak
   else if better then DifferentChain
   else Discard.
+
+(* dispatch in a given order of predicate tests (the order is regenerated from Executer.process, coq/Gen/ForkOrder.v) *)
+Definition holds (c : slotcfg) (last cur : fh) (tl : option N) (tc : N) (k : fc_case) : bool :=
+  match k with
+  | Identical => is_identical last cur
+  | ValidBlock => is_valid_block last cur
+  | DoubleForging => is_double_forging last cur
+  | TieBreak => is_tie_break c last cur tl tc
+  | DifferentChain => is_different_chain last cur
+  | Discard => true
+  end.
+Fixpoint dispatch (order : list fc_case) (c : slotcfg) (last cur : fh) (tl : option N) (tc : N) : fc_case :=
+  match order with
+  | [] => Discard
+  | k :: rest => if holds c last cur tl tc k then k else dispatch rest c last cur tl tc
+  end.
